@@ -4,6 +4,8 @@ from __future__ import annotations
 
 import itertools
 import math
+
+import numpy as np
 from fractions import Fraction as F
 
 from rv.core import instrument
@@ -190,6 +192,12 @@ def judge_intervals(ctx, i1, i2, a, r):
         kw["min_relative_overlap"] = r
     st, v = _call(ctx, G.intervals_overlap, tuple(i1), tuple(i2), **kw)
     spec = {"kind": "intervals", "i1": list(i1), "i2": list(i2), "abs": a, "rel": r}
+    if ctx.every(spec, 4):
+        # an interval is a pair: handed over as a list or an array it is the same interval
+        stc, vc = _call(ctx, G.intervals_overlap, list(i1), np.array(i2, dtype=float), **kw)
+        ctx.mon("intervals_overlap.containers")
+        if stc != st or (st == "ok" and bool(vc) != bool(v)):
+            ctx.violate("intervals_overlap:containers", "intervals_overlap:containers", observed=[stc, str(vc)], expected=[st, str(v)], spec=spec)
     must_reject = (a is not None and r is not None) or (r is not None and not (0 <= r <= 1))
     ctx.mon("intervals_overlap.rejection")
     if must_reject:
